@@ -5,7 +5,7 @@ NOT_BUILT = "check not built yet in this round (design in DESIGN.md section 3); 
 
 def fill(claim, na):
     for p in ["C04",  "C10", 
-              "C15", "C16"]:
+              "C16"]:
         na(p, NOT_BUILT)
     na("C05", "equality of decoded flux with the sector dump is a statement about decoding arbitrary bit-streams "
               "(gap lengths, sync search, bit order, opcode placement); no clause is visible in the shape of the code "
@@ -129,3 +129,12 @@ def fill(claim, na):
           "bodies and the geometry preference order are not decided.",
           "Trusts that the smells_like_* predicates are the marker tests.",
           "DESIGN.md 3/C13")
+    claim("C15",
+          "per-byte folding of the wildcard translator's switch into emitted fragments, each parsed with a POSIX ERE "
+          "grammar written in the checker and compared with the AFSP one-character language; ERE parse of the "
+          "canonicalisation patterns; structural rule on the case-folding comparator",
+          "Decides the translation clause for all 255 byte values (so no wildcard character can act as an operator or "
+          "be rejected), that the canonicalisation patterns are well-formed with the groups the code indexes, and "
+          "that names are compared by tolower/toupper folding. regexec itself and drive/directory defaulting are not decided.",
+          "Trusts the checker's POSIX ERE grammar and C-locale case mapping.",
+          "DESIGN.md 3/C15")
